@@ -1777,7 +1777,6 @@ NOT_TRANSLATED = {
     ("impl ::std::fmt::Debug for {F}", "*"): "formatting",
     ("impl ::std::fmt::Display for {F}", "*"): "formatting",
     ("impl ::zeroize::Zeroize for {F}", "*"): "overwrites memory with zeros; not arithmetic",
-    ("impl ::ff::Field for {F}", "random"): "draws limbs from an RNG until `is_valid`; not a function of its inputs",
     ("impl ::ff::Field for {F}", "mul_assign"): MONT_REASON % "mul_assign",
     ("impl ::ff::Field for {F}", "square"): MONT_REASON % "square",
     ("impl {F}", "mont_reduce"): MONT_REASON % "mont_reduce",
@@ -1958,6 +1957,13 @@ def matchOrdering {α : Type} (o : Ordering) (lt eq gt : Unit → α) : α :=
   | .eq => eq ()
   | .gt => gt ()
 
+/-- `let mut repr = [0u64; N]; for i in 0..N { repr[i] = rng.next_u64(); }`: `n` draws from the RNG, the
+    first one into limb 0 (`nextU64 = RngCore::next_u64` as a function of the RNG state, new state first) -/
+def drawLimbs {Rng : Type} (nextU64 : Rng → Rng × Nat) : Nat → Rng → Rng × List Nat
+  | 0, rng => (rng, [])
+  | n + 1, rng =>
+    ((drawLimbs nextU64 n (nextU64 rng).1).1, (nextU64 rng).2 :: (drawLimbs nextU64 n (nextU64 rng).1).2)
+
 /-- `while cond { body }`: `none` = not finished after `fuel` tests of the condition (or the body
     itself ran out of fuel) -/
 def whileFuel {σ : Type} (cond : σ → Bool) (body : σ → Option σ) : Nat → σ → Option σ
@@ -2129,6 +2135,48 @@ def emit_field(exp, F, mont_items, ffsrc, ffpow, lines, items, notes):
                 lines.append("def %s : Nat := %s" % (ln, t))
                 lines.append("")
                 rec("derive:%s:const:%s" % (hdr, cn), ca, cb)
+
+    # ---- `Field::random`: rejection sampling from an RNG.  The loop form (`loop { .. if C { return v } }`, a
+    # `for` that fills a fresh array from `rng`) is outside the statement forms of `Tr`; the body is matched
+    # against the shape below (whitespace-insensitive), every number in it is read from the source, and
+    # anything else is an extraction error (a broken obligation), never a silent skip.
+    fld = byhdr.get("impl ::ff::Field for %s" % F)
+    f = fld["fns"].get("random") if fld else None
+    if f is None:
+        raise ExtractError("derive: %s::random not found" % F)
+    if squeeze(f["params"]) != "rng:&mutR" or squeeze(f["ret"] or "") != "Self" or \
+            not re.match(r"^R:(::)?rand_core::RngCore\+\?(::)?std::marker::Sized$", squeeze(f["generics"] or "")):
+        raise ExtractError("derive: %s::random: signature changed: <%s>(%s) -> %s" % (F, f["generics"], f["params"], f["ret"]))
+    body = squeeze(exp[f["ba"]:f["bb"]])
+    mr = re.match(r"^\{loop\{letmuttmp=\{letmutrepr=\[0u64;([0-9]+)usize\];foriin0\.\.([0-9]+)usize\{repr\[i\]=rng\.next_u64\(\);\}"
+                  r"%s\(%s\(repr\)\)\};tmp\.0\.as_mut\(\)\[([0-9]+)usize\]&=(0x[0-9a-fA-F]+|[0-9]+)(u64)?>>REPR_SHAVE_BITS;"
+                  r"iftmp\.is_valid\(\)\{returntmp;?\}\}\}$" % (F, R), body)
+    if not mr:
+        raise ExtractError("derive: %s::random: body is not of the expected rejection-sampling shape: %s" % (F, body[:400]))
+    n_arr, n_loop, top, mask = int(mr.group(1)), int(mr.group(2)), int(mr.group(3)), mr.group(4)
+    if n_arr != N:
+        raise ExtractError("derive: %s::random: array of %d limbs, Repr has %d" % (F, n_arr, N))
+    if ("Fe", "is_valid") not in ctx.methods or "REPR_SHAVE_BITS" not in ctx.consts:
+        raise ExtractError("derive: %s::random: is_valid / REPR_SHAVE_BITS not translated" % F)
+    fld["used"].add("random")
+    lines.append("/-- `fn random<%s>(%s) -> Self`  (`impl ::ff::Field for %s`) as a function of the RNG state:\n"
+                 "    `nextU64` = `RngCore::next_u64` (new state first); `fuel` bounds the number of attempts\n"
+                 "    (`none` = no valid candidate among the first `fuel`); the result is the raw limb array of `%s(%s(..))` -/"
+                 % (norm(f["generics"]), norm(f["params"]), F, F, R))
+    lines.append("def %s.random {Rng : Type} (nextU64 : Rng → Rng × Nat) : Nat → Rng → Option (Rng × List Nat)" % F)
+    lines.append("  | 0, _ => none")
+    lines.append("  | fuel + 1, rng =>                                            -- loop {")
+    lines.append("    let d := drawLimbs nextU64 %d rng                          -- let mut repr = [0u64; %dusize]; for i in 0..%dusize { repr[i] = rng.next_u64(); }" % (n_loop, n_arr, n_loop))
+    if n_loop > n_arr:
+        raise ExtractError("derive: %s::random: loop writes %d limbs into an array of %d (index out of bounds)" % (F, n_loop, n_arr))
+    pad = (" ++ List.replicate %d 0" % (n_arr - n_loop)) if n_loop < n_arr else ""
+    lines.append("    let tmp := d.2%s                                              -- let mut tmp = %s(%s(repr));" % (pad, F, R))
+    lines.append("    let tmp := tmp.set %d (tmp.getD %d 0 &&& (%s >>> %s))" % (top, top, mask, ctx.consts["REPR_SHAVE_BITS"][0]))
+    lines.append("                                                                -- tmp.0.as_mut()[%dusize] &= %s >> REPR_SHAVE_BITS;" % (top, mask))
+    lines.append("    if %s tmp then some (d.1, tmp)                    -- if tmp.is_valid() { return tmp }" % ctx.methods[("Fe", "is_valid")].lean)
+    lines.append("    else %s.random nextU64 fuel d.1                             -- }" % F)
+    lines.append("")
+    rec("derive:impl ::ff::Field for %s:random" % F, f["a"], f["bb"])
 
     # ---- everything else in the module must be accounted for
     nt = {fmt(h): (fn, r.replace("{F}", F)) for (h, fn), r in NOT_TRANSLATED.items() if fn == "*"}
